@@ -56,6 +56,9 @@ type c16Drv struct {
 	Outcome string     `json:"outcome"` // nil (probe finds nothing) | fail (init fails) | ok
 	Font    bool       `json:"font,omitempty"`
 	Logo    bool       `json:"logo,omitempty"`
+	// Eager (stand-in terminals only): the terminal has no inactive mode - State() says active from
+	// the start. It still shows nothing until it is attached to a console and made the log sink.
+	Eager   bool       `json:"eager,omitempty"`
 	W       int        `json:"w,omitempty"` // console geometry in cells
 	H       int        `json:"h,omitempty"`
 	Probe   []c16Chunk `json:"probe,omitempty"` // logged inside Probe (kfmt.Printf)
@@ -290,6 +293,7 @@ type c16TTY struct {
 	attached   bool
 	attaches   []int // console index per AttachTo call
 	state      tty.State
+	eager      bool
 	everActive bool
 	stream     []byte // bytes accepted since the last AttachTo
 	rejected   int    // bytes refused
@@ -416,6 +420,8 @@ func c16Build(c c16hCase) *c16Scn {
 			t := &c16TTY{c16Base: b}
 			if c.RealVT {
 				t.vt = tty.NewVT(4, uint32(c.Scrollback))
+			} else if d.Eager {
+				t.eager, t.state = true, tty.StateActive
 			}
 			s.ttys[i], s.base[i], s.drv[i] = t, &t.c16Base, t
 		default:
@@ -568,6 +574,12 @@ func c16hBody(c c16hCase, info *c16hInfo) *vlib.Failure {
 		}
 	}
 	label(true, "hal layer")
+	for _, d := range c.Drivers {
+		if d.Kind == "tty" && d.Eager && !c.RealVT && d.Outcome == "ok" {
+			label(true, "terminal-that-reports-active-from-the-start")
+			break
+		}
+	}
 	ref, fail, harness := c16hExec(c, true)
 	if harness != "" || fail != nil {
 		info.harness = harness
@@ -694,7 +706,7 @@ func c16hBody(c c16hCase, info *c16hInfo) *vlib.Failure {
 		if t == nil || (linked && i == firstTTY) {
 			continue
 		}
-		if t.everActive || t.State() == tty.StateActive {
+		if t.everActive || (!t.eager && t.State() == tty.StateActive) {
 			return vlib.Failf("%s was made active although it is not the first terminal to initialise with a console present (first terminal: %d, first console: %d)", t.describe(), firstTTY, firstCons)
 		}
 		if sinkIdx == i {
@@ -971,6 +983,9 @@ func c16GenDrv(t *rapid.T) c16Drv {
 		d.Logo = rapid.Bool().Draw(t, "logo")
 		d.W = rapid.IntRange(1, 12).Draw(t, "w")
 		d.H = rapid.IntRange(1, 12).Draw(t, "h")
+	}
+	if d.Kind == "tty" {
+		d.Eager = rapid.IntRange(0, 3).Draw(t, "eager") == 0
 	}
 	d.Probe = rapid.SliceOfN(rapid.Custom(c16GenChunk(1)), 0, 2).Draw(t, "probelog")
 	if d.Outcome != "nil" {
